@@ -147,9 +147,40 @@ def lifecycle_leg(ctx, fl):
     ctx.extra["rule_lifecycle_model_divergence"] = div
 
 
+def degenerate_leg(ctx, fl):
+    """rule texts over an engine with legal but degenerate components - a variable without terms, reachable only through `any` -
+    either are rejected cleanly or load into a rule that can be exported and evaluated, alone and inside Engine.process"""
+    e = make_engine(fl)
+    e.input_variables.append(fl.InputVariable("spare", minimum=0.0, maximum=1.0))
+    e.output_variables.append(fl.OutputVariable("idle", minimum=0.0, maximum=1.0, aggregation=fl.Maximum(), defuzzifier=fl.Centroid(10)))
+    for v in e.input_variables:
+        v.value = 0.25
+    texts = ["if spare is any then y is lo", "if spare is not any then y is lo", "if a is lo and spare is any then y is hi", "if ( spare is any ) or b is hi then y is lo with 0.5",
+             "if spare is very any then y is lo and z is hi", "if a is lo then idle is lo", "if spare is lo then y is lo", "if a is lo then idle is any", "if idle is any then y is lo",
+             "if a is any and spare is any then y is hi"]
+    for text in texts:
+        ctx.count()
+        case = {"text": text, "engine": "two variables without terms: input spare, output idle"}
+        kind, val = outcome(lambda: fl.Rule.create(text, e))
+        if kind == "internal":
+            ctx.violation(f"Rule.create/internal-{type(val).__name__}/term-less-variable", case, "success or a clean rejection", f"{type(val).__name__}: {val}")
+        elif kind == "ok":
+            rule = val
+            rb = fl.RuleBlock("extra", conjunction=fl.Minimum(), disjunction=fl.Maximum(), implication=fl.Minimum(), activation=fl.General(), rules=[rule])
+            e.rule_blocks.append(rb)
+            k2, v2 = outcome(lambda: (str(rule), fl.FllExporter().rule(rule), rule.activate_with(fl.Minimum(), fl.Maximum()), rule.trigger(fl.Minimum()), e.process()))
+            e.rule_blocks.pop()
+            for ov in e.output_variables:
+                ov.fuzzy.clear()
+            if k2 != "ok":
+                ctx.violation(f"accepted-rule-unusable/{type(v2).__name__}/term-less-variable", case, "export and evaluation work", f"{type(v2).__name__}: {v2}",
+                              note=f"'{text}' was loaded, but cannot be evaluated")
+
+
 def run(ctx: core.Ctx):
     fl = core.import_fuzzylite()
     lifecycle_leg(ctx, fl)
+    degenerate_leg(ctx, fl)
     rng = random.Random(ctx.seed)
     la, lc = (4, 4) if ctx.quick else (5, 5)
     head = "SPECIFICATION Spec\n" + CONSTS + f"  LenA = {la}\n  LenC = {lc}\n  Emit = TRUE\n"
